@@ -63,3 +63,41 @@ def gen_ProcessCommand(rng):
     else:
         cmd = CommandCompleteRun(result=StopEvent(result=1))
     return dict(self=rand_runner(rng), command=cmd)
+
+
+# ------------------------------------------------------------------ _process_tick
+from pyvc.dsl import tlog  # noqa: E402
+from workflows.runtime.types.ticks import TickCancelRun, TickPublishEvent, TickTimeout  # noqa: E402
+
+
+class JournalAdapter(FakeAdapter):
+    """FakeAdapter plus the journal hooks; reports them to the type-indexed call log"""
+
+    run_id = "run-1"
+
+    async def on_tick(self, tick):
+        tlog("InternalRunAdapter", self, "on_tick", (tick,), {})
+
+    async def after_tick(self, tick):
+        tlog("InternalRunAdapter", self, "after_tick", (tick,), {})
+
+    def __repr__(self):
+        return f"JournalAdapter(now={self.now})"
+
+
+def gen_RunnerProcessTick(rng):
+    r = rand_runner(rng)
+    r.adapter = JournalAdapter(r.adapter.now)
+    r.state = rand_state(rng)
+    k = rng.random()
+    if k < 0.6:
+        tick = rand_add_tick(rng, r.state)
+    elif k < 0.7:
+        tick = TickCancelRun()
+    elif k < 0.8:
+        tick = TickPublishEvent(event=rand_event(rng, USER_EVENTS))
+    elif k < 0.9:
+        tick = TickTimeout(timeout=3.0)
+    else:
+        tick = TickIdleCheck()
+    return dict(self=r, tick=tick)
